@@ -29,6 +29,7 @@ ASSUMPTIONS = [
 SCALE = 100.0
 A5 = (-2, -1, 0, 1, 2)
 RTOL, ATOL = 1e-11, 1e-13
+NT = (-10.00001, -10.000005, -10, -5, 5, 10, 10.000005, 10.00001)      # near ties, see c04.py
 PARAMS = [(206e3, 1184.0, 0.187, 3.5), (70e3, 600.0, 0.128, 2.0)]
 LAWKINDS = ("binned-neuber", "binned-seegerbeste", "exact-neuber")
 RATIOS = (0.5, 1.0, 1.3, 2.0)
@@ -50,9 +51,11 @@ def bounds(tier):
     if tier == "quick":
         return {"main": {"law": "binned-neuber/params0", "alphabet": [SCALE * a for a in A5], "n": [2, 5]},
                 "other_laws": {"laws": "5 further (law, parameter) configurations", "n": [2, 4]},
+                "near_ties": {"alphabet": [SCALE * v for v in NT], "n": [2, 3], "law": "binned-neuber/params0"},
                 "batch": {"ratios": RATIOS, "point_sets": "all ordered subsets of size 1..3 (40)", "sequences": "8 templates; 6 point sets x all n<=3 sequences"},
                 "mirror": {"n": [2, 4]}}
     return {"main": {"law": "all 6 (law, parameter) configurations", "alphabet": [SCALE * a for a in A5], "n": [2, 6]},
+            "near_ties": {"alphabet": [SCALE * v for v in NT], "n": [2, 4], "law": "binned-neuber/params0"},
             "batch": {"ratios": RATIOS, "point_sets": "all ordered subsets of size 1..3 (40)", "sequences": "8 templates and all n<=4 sequences"},
             "mirror": {"n": [2, 6]}}
 
@@ -78,6 +81,10 @@ def shards(tier):
                 continue
             for block in chunked(_seqs(n), 80):
                 out.append(("single", cfg, block, n <= (4 if tier == "quick" else 6) and ci == 0))
+    for n in range(2, (3 if tier == "quick" else 4) + 1):
+        near = [[SCALE * v for v in t] for t in itertools.product(NT, repeat=n) if len(set(t)) >= 2]
+        for block in chunked(near, 80):
+            out.append(("single", configs[0], block, False))
     sets = [c for k in (1, 2, 3) for c in itertools.permutations(RATIOS, k)]
     for t in TEMPLATES:
         for block in chunked(sets, 10):
